@@ -51,6 +51,20 @@ fn run<T: Same>(spec: &Spec, xs: &[T], ys: &[T], p: usize, pattern: u64) -> Resu
             return Err(format!("purity|step {k}: an instance on which last() is called {calls} extra times reports {first:?}, its twin {:?}", outs[k]));
         }
     }
+    // (b') "any number of times" includes zero: an instance that is polled only now and then must agree, whenever it is
+    // polled, with the twin that was polled after every update (a last() that completes work update() deferred is not pure)
+    let mut t5 = build::<T>(spec);
+    let mut st = pattern.wrapping_mul(0x9E3779B97F4A7C15) | 1;
+    for (k, x) in xs.iter().enumerate() {
+        t5.update(*x);
+        let poll = gen::splitmix(&mut st) % 4 == 0 || k + 1 == xs.len();
+        if poll {
+            let got = t5.last();
+            if !same_opt(got, outs[k]) {
+                return Err(format!("purity|step {k}: an instance whose last() had not been called for some updates reports {got:?}, its twin polled after every update {:?}", outs[k]));
+            }
+        }
+    }
     // (c) clones
     if !spec.clonable() {
         return Ok((false, distinct(&outs)));
@@ -166,7 +180,7 @@ fn pairs() -> BoxedStrategy<Spec> {
 }
 
 pub fn clauses() -> Vec<Clause> {
-    let o = "Oracles, bit-exact in f64 and f32: (a) two instances built alike and fed alike step by step, and a third fed afterwards, agree at every step; (b) an instance on which last() is called 0-5 extra times after each update (and once before the first) agrees with its twin and with itself; (c) a clone taken after p updates equals the original at once, follows the never-cloned line when fed the same continuation, and when clone and original are fed different continuations (clone first) the clone equals a fresh instance fed prefix + its continuation while the original equals the never-cloned twin. Trees containing Add (no Clone impl) skip (c), counted. Non-trivial: outputs non-constant and, where cloned, p after the window filled, before the end, continuations differ.";
+    let o = "Oracles, bit-exact in f64 and f32: (a) two instances built alike and fed alike step by step, and a third fed afterwards, agree at every step; (b) an instance on which last() is called 0-5 extra times after each update (and once before the first) agrees with its twin and with itself, and so does an instance that is polled only after every fourth update on average; (c) a clone taken after p updates equals the original at once, follows the never-cloned line when fed the same continuation, and when clone and original are fed different continuations (clone first) the clone equals a fresh instance fed prefix + its continuation while the original equals the never-cloned twin. Trees containing Add (no Clone impl) skip (c), counted. Non-trivial: outputs non-constant and, where cloned, p after the window filled, before the end, continuations differ.";
     vec![
         Clause::generated("C17", "C17/singles", format!("every view type over Echo, N in 1..40, stream of 0..6N+24 values, clone position uniform over the stream, divergent continuation of 0..3N+8 values. {o}"), 8000, 200_000, |_t| with_streams(singles()), check).with_shard(500),
         Clause::generated("C17", "C17/pairs", format!("every (wrapper, inner) pair of the catalogue with windows 1..12. {o}"), 8000, 200_000, |_t| with_streams(pairs()), check).with_shard(500),
